@@ -39,7 +39,7 @@ MUTATIONS += [
 ]
 
 MUTATIONS += [
- dict(name="sig-no-stop-at-exclusive", props=["C10"], benign=True, edits=[("iv_signal.c", "\t\tif (is->flags & IV_SIGNAL_FLAG_EXCLUSIVE)\n\t\t\tbreak;\n\n\t\tan = iv_avl_tree_next(an);", "\t\tan = iv_avl_tree_next(an);")]),
+ dict(name="sig-no-stop-at-exclusive", props=["C10"], edits=[("iv_signal.c", "\t\tif (is->flags & IV_SIGNAL_FLAG_EXCLUSIVE)\n\t\t\tbreak;\n\n\t\tan = iv_avl_tree_next(an);", "\t\tan = iv_avl_tree_next(an);")]),
  dict(name="sig-no-handoff", props=["C10"], edits=[("iv_signal.c", "\t} else if ((this->flags & IV_SIGNAL_FLAG_EXCLUSIVE) && this->active) {\n\t\t__iv_signal_do_wake(iv_signal_tree(this), this->signum);\n\t}", "\t}")]),
  dict(name="sig-dfl-while-interests", props=["C10"], edits=[("iv_signal.c", "\tif (!--total_num_interests[this->signum]) {", "\tif (--total_num_interests[this->signum] <= 1) {")]),
  dict(name="sig-no-owner-pid-test", props=["C10"], edits=[("iv_signal.c", "\tif (sig_owner_pid == 0 || sig_owner_pid != getpid())\n\t\treturn;\n", "")]),
